@@ -1,4 +1,4 @@
-import MosnVerif.Lemmas.Downstream.Tails
+import MosnVerif.Lemmas.Downstream.TailUpf
 /-! the worker handles a pending upstream reset (`processError` → `onUpstreamReset`) -/
 namespace MosnVerif.Model.Downstream
 open MosnVerif.Gen.ProxyPhase MosnVerif.Gen.ProxyReason MosnVerif.Gen.ProxyRetry
@@ -44,8 +44,8 @@ theorem base_transfer (c : Cfg) (ar aq : Nat) (s s' : S) (b : Base c ar aq s) (h
 /-- no retry: clean up the timers and answer with the error reply of the reset reason -/
 theorem finish_branch (c : Cfg) (ar aq : Nat) (s : S) (r : Reason) (b : Base c ar aq s) (hrun : s.running = true)
     (hcl : s.cleaned = false) (how : c.oneway = false) (h3 : K3 s) (h6 : K6 s) (hpd : s.procDone = false)
-    (hsr : s.setupRetry = false) (hpass : s.pass = 0) (hup : s.up.isSome = true) (hlc : liveCount s.streams = 0)
-    (hrst : s.respStarted = false) (hphase : s.phase ≠ .UpFilter) :
+    (hsr : s.setupRetry = false) (hp1 : s.pass ≤ 1) (hpass : s.phase ≠ .UpFilter → s.pass = 0) (hlc : liveCount s.streams = 0)
+    (hrst : s.respStarted = false) (hupf : s.phase = .UpFilter → s.urr = true) :   -- [proxy7] also at phase UpFilter
     Inv c ar aq (finishOf (peTail c (onUpstreamResetFinish c s r) true)) := by
   unfold onUpstreamResetFinish
   simp only [resetNotReply_eq, cleanUp_respStarted, hrst, Bool.false_eq_true, if_false]
@@ -61,7 +61,7 @@ theorem finish_branch (c : Cfg) (ar aq : Nat) (s : S) (r : Reason) (b : Base c a
       simp only [K9] at h9 ⊢
       show (cleanUp c s).retries = (ar : Int) + heldRetry c (cleanUp c s)
       omega
-    · intro _; exact hup
+    · intro hq; rw [hcu.1] at hq; exact b.k31 hq
   have e_cl : h.cleaned = false := by subst hh; simp [sendHijack, orFlag, hcl]
   have e_run : h.running = true := by subst hh; simp [sendHijack, orFlag, hrun]
   have e_dr : h.downReset = s.downReset := by subst hh; simp [sendHijack, orFlag]
@@ -71,9 +71,36 @@ theorem finish_branch (c : Cfg) (ar aq : Nat) (s : S) (r : Reason) (b : Base c a
   · have : peTail c h true = (dsResetStream c h, some .End) := by
       unfold peTail; rw [if_pos hd]
     rw [this]
-    exact tail_down c ar aq h hb e_cl hd (fun hf => by
-      subst hh; simp [sendHijack, orFlag, hup, hpd, how] at hf)
+    exact tail_down c ar aq h hb e_cl hd (fun _ => by
+      subst hh; simp [sendHijack, orFlag, hlc])
   · have e_held : rsHeld h = false := by subst hh; simpa [rsHeld, sendHijack, orFlag] using hcu.2.1
+    by_cases hphase : s.phase = .UpFilter
+    · -- [proxy7] already in the response pass: no re-entry, the pass goes on with the reply
+      have : peTail c h true = ({ h with direct := false, rs := none }, none) := by
+        unfold peTail
+        rw [if_neg hd, if_pos e_dir]
+        simp only []
+        rw [if_neg (by simp [how]), if_neg (by rw [e_ph]; simp [hphase]), rsReset_retries_of_not_held c h e_held]
+      rw [this]
+      have e_next : finishOf (({ h with direct := false, rs := none } : S), (none : Option Phase)) =
+          { h with direct := false, rs := none, phase := .UpRecvHeader } := by
+        simp [finishOf, e_ph, hphase, Phase.next]
+      rw [e_next]
+      apply tail_direct_upf c ar aq h hb e_run e_cl how
+      · subst hh; simpa [K3, sendHijack, orFlag] using h3
+      · subst hh; simpa [K6, sendHijack, orFlag] using h6
+      · subst hh; simp [sendHijack, orFlag, hpd]
+      · subst hh; simp [sendHijack, orFlag, hsr]
+      · subst hh; simpa [sendHijack, orFlag] using hp1
+      · exact e_held
+      · subst hh; simp [sendHijack, orFlag, hlc]
+      · subst hh; simp [sendHijack]
+      · subst hh; simp [sendHijack]
+      · subst hh; simpa [sendHijack, orFlag] using hcu.2.2.2.1
+      · subst hh; simpa [sendHijack, orFlag] using hcu.2.2.2.2
+      · subst hh; simp [sendHijack, orFlag, hrst]
+      · subst hh; simpa [sendHijack, orFlag, cleanUp, rsReset] using hupf hphase
+    have hpass := hpass hphase
     have : peTail c h true = ({ h with direct := false, rs := none }, some .UpFilter) := by
       unfold peTail
       rw [if_neg hd, if_pos e_dir]
@@ -115,16 +142,25 @@ theorem base_orFlag (c : Cfg) (ar aq : Nat) (s : S) (f : Nat) (b : Base c ar aq 
 /-- the worker handles a pending upstream reset of a two-way request that is being forwarded -/
 theorem upreset_branch (c : Cfg) (ar aq : Nat) (s : S) (b : Base c ar aq s) (hrun : s.running = true)
     (hcl : s.cleaned = false) (how : c.oneway = false) (h3 : K3 s) (h6 : K6 s) (hpd : s.procDone = false)
-    (hsr : s.setupRetry = false) (hpass : s.pass = 0) (hup : s.up.isSome = true) (hrs : s.rs.isSome = true)
-    (hlc : liveCount s.streams = 0) (hrst : s.respStarted = false) (hphase : s.phase ≠ .UpFilter)
-    (h24 : s.reqSent = true → s.global = true ∨ s.globalExpired = true)
+    (hsr : s.setupRetry = false) (hp1 : s.pass ≤ 1) (hpass0 : s.phase ≠ .UpFilter → s.pass = 0)
+    (h25 : s.rs.isSome = true → s.pass = 0)
+    (hlc : liveCount s.streams = 0) (hrst : s.respStarted = false) (hupf : s.phase = .UpFilter → s.urr = true)
+    (h24 : s.rs.isSome = true → s.reqSent = true → s.global = true ∨ s.globalExpired = true)
     (hdirexp : s.direct = true → s.globalExpired = true) :
     Inv c ar aq (finishOf (peTail c (onUpstreamReset c s) true)) := by
   unfold onUpstreamReset
+  by_cases hrs : s.rs.isSome = true
+  rotate_left
+  · -- [proxy7] no retry state (possible at phase UpFilter only as far as the invariant knows): nothing to retry
+    simp only [retryGate_eq, hrst, hrs, Bool.and_false, Bool.false_eq_true, if_false]
+    exact finish_branch c ar aq s _ b hrun hcl how h3 h6 hpd hsr hp1 hpass0 hlc hrst hupf
+  have hpass : s.pass = 0 := h25 hrs
+  have hup : s.up.isSome = true := b.k31 hrs
+  have h24 := h24 hrs
   simp only [retryGate_eq, hrst, hrs, Bool.not_false, Bool.and_true]
   split
   rotate_left
-  · exact finish_branch c ar aq s _ b hrun hcl how h3 h6 hpd hsr hpass hup hlc hrst hphase
+  · exact finish_branch c ar aq s _ b hrun hcl how h3 h6 hpd hsr hp1 hpass0 hlc hrst hupf
   · -- a retry is considered
     have hf := rsRetry_facts c s (some s.resetReason)
     have hb1 := base_rsRetry c ar aq s (some s.resetReason) b hcl
@@ -147,13 +183,16 @@ theorem upreset_branch (c : Cfg) (ar aq : Nat) (s : S) (b : Base c ar aq s) (hru
     have h3' : K3 s1 := by simpa [K3, e_tr, e_cln] using h3
     have h6' : K6 s1 := by simpa [K6, e_dl, e_dr, e_cln] using h6
     have hlc' : liveCount s1.streams = 0 := by rw [e_st]; exact hlc
-    have hph' : s1.phase ≠ .UpFilter := by rw [e_ph]; exact hphase
+    have e_urr : s1.urr = s.urr := by have := congrArg (fun x => x.1.urr) hs1; simpa using this.symm
+    have hph' : s1.phase = .UpFilter → s1.urr = true := by rw [e_ph, e_urr]; exact hupf
+    have e_p1 : s1.pass ≤ 1 := by rw [e_ps]; omega
+    have e_p0 : s1.phase ≠ .UpFilter → s1.pass = 0 := fun _ => e_ps
     by_cases hchk : (chk == ShouldRetry) = true
     · simp only [hchk, if_true]
       rw [setupRetry_eq]
       by_cases hexp : (setupRetryChecksExpiry && s1.globalExpired) = true
       · simp only [hexp, if_true]
-        exact finish_branch c ar aq s1 _ hb1 e_run e_cl how h3' h6' e_pd e_sr e_ps e_up hlc' e_rst hph'
+        exact finish_branch c ar aq s1 _ hb1 e_run e_cl how h3' h6' e_pd e_sr e_p1 e_p0 hlc' e_rst hph'
       · simp only [hexp, Bool.false_eq_true, if_false, Bool.not_true]
         have hck : setupRetryChecksExpiry = true := by decide
         have hge : s1.globalExpired = false := by
@@ -212,7 +251,7 @@ theorem upreset_branch (c : Cfg) (ar aq : Nat) (s : S) (b : Base c ar aq s) (hru
           · subst hr; rfl
     · simp only [hchk, Bool.false_eq_true, if_false]
       split
-      · exact finish_branch c ar aq _ _ (base_orFlag c ar aq s1 _ hb1) e_run e_cl how h3' h6' e_pd e_sr e_ps e_up hlc' e_rst hph'
-      · exact finish_branch c ar aq s1 _ hb1 e_run e_cl how h3' h6' e_pd e_sr e_ps e_up hlc' e_rst hph'
+      · exact finish_branch c ar aq _ _ (base_orFlag c ar aq s1 _ hb1) e_run e_cl how h3' h6' e_pd e_sr e_p1 e_p0 hlc' e_rst hph'
+      · exact finish_branch c ar aq s1 _ hb1 e_run e_cl how h3' h6' e_pd e_sr e_p1 e_p0 hlc' e_rst hph'
 
 end MosnVerif.Model.Downstream
